@@ -437,6 +437,40 @@ fn check_unlisted_consts(cx: &Cx, sink: &mut Sink) -> (usize, Vec<String>) {
     (judged, unjudged)
 }
 
+/// conversions of a SignatureScheme into the (hash, signature) pair type, discovered from the source: whatever they are
+/// called, the hash is the high byte and the signature the low byte
+fn check_scheme_conversions(sink: &mut Sink) {
+    let conv: Vec<(bool, String)> = vchecks::genprobe::scheme_conversions().into_iter().filter(|c| c.1 == "SignatureAndHashAlgorithm").collect();
+    if !conv.is_empty() {
+        let mut body = String::from("{\n");
+        for (by_ref, t) in &conv {
+            let expr = if *by_ref { "(&s).into()" } else { "s.into()" };
+            body.push_str(&format!("    {{ let mut bad = 0u32; let mut first = 0u32; for x in 0..=65535u32 {{ let s = SignatureScheme(x as u16); let v: {t} = {expr}; if v.hash.0 != (x >> 8) as u8 || v.sign.0 != x as u8 {{ if bad == 0 {{ first = x; }} bad += 1; }} }} println!(\"CONV {t} {by_ref} {{}} {{}}\", bad, first); }}\n"));
+        }
+        body.push_str("}\n");
+        match vchecks::genprobe::run_generated("c17conv", &body) {
+            Some(out) => {
+                for l in out.lines() {
+                    let f: Vec<&str> = l.split_whitespace().collect();
+                    if f.len() == 5 && f[0] == "CONV" {
+                        sink.evals += 65536;
+                        let (bad, first) = (f[3].parse::<u64>().unwrap_or(0), f[4].parse::<u64>().unwrap_or(0));
+                        sink.count("SignatureScheme conversions", if bad == 0 { "split correctly" } else { "WRONG" });
+                        if bad != 0 {
+                            sink.violation(
+                                format!("split From<SignatureScheme> for {}", f[1]),
+                                format!("the conversion of a SignatureScheme into {} does not give hash = high byte / signature = low byte for {} of the 65536 values (first: {:#06x})", f[1], bad, first),
+                                json!({"kind":"scheme-conversion","type":f[1]}),
+                            );
+                        }
+                    }
+                }
+            }
+            None => sink.bump("SignatureScheme conversions found but probe not buildable", 1),
+        }
+    }
+}
+
 fn main() {
     let run = Run::from_args("C17", "exploration");
     let sub = std::env::args().any(|a| a == "--sub");
@@ -463,6 +497,11 @@ fn main() {
                     check_consts(&cx, &mut s);
                     let key = format!("const {}::{}", case["type"].as_str().unwrap(), case["name"].as_str().unwrap());
                     msgs.extend(s.viol.iter().filter(|v| v.key == key).map(|v| v.what.clone()));
+                }
+                Some("scheme-conversion") => {
+                    let mut s = Sink::new();
+                    check_scheme_conversions(&mut s);
+                    msgs.extend(s.viol.iter().map(|v| v.what.clone()));
                 }
                 Some("unlisted-const") => {
                     let mut s = Sink::new();
@@ -538,6 +577,9 @@ fn main() {
         }
     });
     sink.merge(s2);
+    if !sub {
+        check_scheme_conversions(&mut sink);
+    }
     // the same sweep against the crate built with all cargo features (std, serialize, unstable)
     run.all_features_variant(&mut sink);
     let unknown: Vec<String> = cx
